@@ -21,8 +21,9 @@ import RV.Gen.C18Ref
 namespace RV.Driver.C18
 open RV.Layout RV.Gen.C18
 
-def tables : Tables := ⟨cRows, cSizes, pyRows, pySizes, classMap⟩
-def otables : OptTables := ⟨cEnumRows, pyOptRows, cRows⟩
+def tables : Tables := ⟨cTab, pyTab, classMap⟩
+def otables : OptTables := ⟨cEnumRows, pyOptRows, cTab⟩
+def rowsOf (t : StructTab) : Nat := (t.map (·.2.2.length)).foldl (· + ·) 0
 
 def b2s (b : Bool) : String := if b then "true" else "false"
 
@@ -30,35 +31,38 @@ def main : IO Unit := do
   let out ← IO.getStdout
   for e in classMap do
     match classLayoutBad tables e with
-    | [] => out.putStrLn s!"LAYOUT\t{e.1}\t{e.2.1}\tok"
-    | l => for m in l do out.putStrLn s!"LAYOUT\t{e.1}\t{e.2.1}\tBAD\t{m.2.1}\t{m.2.2.1}\t{m.2.2.2}"
-    let ps := (lookup e.1 pySizes).map toString |>.getD "?"
-    let cs := (lookup e.2.1 cSizes).map toString |>.getD "?"
-    if sizeOk tables e then out.putStrLn s!"SIZE\t{e.1}\t{e.2.1}\tok\t{ps}\t{cs}"
-    else out.putStrLn s!"SIZE\t{e.1}\t{e.2.1}\tBAD\t{ps}\t{cs}"
+    | [] => out.putStrLn s!"LAYOUT\t{e.1.str}\t{e.2.1.str}\tok"
+    | l => for m in l do out.putStrLn s!"LAYOUT\t{e.1.str}\t{e.2.1.str}\tBAD\t{m.2.1.str}\t{m.2.2.1.str}\t{m.2.2.2.str}\t{b2s (memBad m knownLayoutExceptions)}"
+    let ps := (sizeOf? e.1 pyTab).map toString |>.getD "?"
+    let cs := (sizeOf? e.2.1 cTab).map toString |>.getD "?"
+    if sizeOk tables e then out.putStrLn s!"SIZE\t{e.1.str}\t{e.2.1.str}\tok\t{ps}\t{cs}"
+    else out.putStrLn s!"SIZE\t{e.1.str}\t{e.2.1.str}\tBAD\t{ps}\t{cs}"
   out.putStrLn s!"MAPPED\t{if allMapped tables then "ok" else "BAD"}"
-  for e in pySizes do
-    if (lookup e.1 classMap).isNone then out.putStrLn s!"UNMAPPED\t{e.1}"
+  for e in pyTab do
+    if (lookup e.1 classMap).isNone then out.putStrLn s!"UNMAPPED\t{e.1.str}"
+  for e in classMap do
+    if (lookup e.1 pyTab).isNone then out.putStrLn s!"MISSINGCLASS\t{e.1.str}"
+    if (lookup e.2.1 cTab).isNone then out.putStrLn s!"MISSINGSTRUCT\t{e.2.1.str}"
   for n in allBadNames tables renames do
-    out.putStrLn s!"NAME\t{n.1}\t{n.2.1}\t{n.2.2}"
+    out.putStrLn s!"NAME\t{n.1.str}\t{n.2.1.str}\t{n.2.2.str}\t{b2s (memTriple n.1 n.2.1 n.2.2 knownNameExceptions)}"
   for f in optMap do
-    out.putStrLn s!"OPT\t{f.dict}\t{f.struct}.{f.member}\tforward={b2s (optForward otables f)}\troundtrip={b2s (optRoundtrip otables f)}\ttieget={b2s (optFieldTie tables pyPropRows f "get")}\ttieset={b2s (optFieldTie tables pyPropRows f "set")}"
-    match enumOfMember cRows f.struct f.member with
-    | none => out.putStrLn s!"OPTBAD\t{f.dict}\t-\t-\tC member {f.struct}.{f.member} is not an enumeration"
+    out.putStrLn s!"OPT\t{f.dict.str}\t{f.struct.str}.{f.member.str}\tforward={b2s (optForward otables f)}\troundtrip={b2s (optRoundtrip otables f)}\ttieget={b2s (optFieldTie tables pyPropRows f n!"get")}\ttieset={b2s (optFieldTie tables pyPropRows f n!"set")}\tshadow_known={b2s (memPair f.cls f.prop knownShadowExceptions)}"
+    match enumOfMember cTab f.struct f.member with
+    | none => out.putStrLn s!"OPTBAD\t{f.dict.str}\t-\t-\tC member {f.struct.str}.{f.member.str} is not an enumeration"
     | some en =>
       for it in itemsOf f.dict pyOptRows do
         let cand := meaning f.pre it.1 (itemsOf en cEnumRows)
         match cand with
-        | [c] => if c.2 != it.2 then out.putStrLn s!"OPTBAD\t{f.dict}\t{it.1}\t{it.2}\t{c.1}={c.2}"
-        | _ => out.putStrLn s!"OPTBAD\t{f.dict}\t{it.1}\t{it.2}\t{cand.map (·.1)}"
+        | [c] => if c.2 != it.2 then out.putStrLn s!"OPTBAD\t{f.dict.str}\t{it.1.str}\t{it.2}\t{c.1.str}={c.2}"
+        | _ => out.putStrLn s!"OPTBAD\t{f.dict.str}\t{it.1.str}\t{it.2}\t{cand.map (·.1.str)}"
   for r in pyFnOptRows do
-    out.putStrLn s!"FNOPT\t{r.1}\t{r.2.1}\t{r.2.2.1}\t{r.2.2.2}\t{if fnOptOk cRows cFunctions fnOptMap r then "ok" else "BAD"}"
+    out.putStrLn s!"FNOPT\t{r.1.str}\t{r.2.1.str}\t{r.2.2.1.str}\t{r.2.2.2.str}\t{if fnOptOk cTab cFunctions fnOptMap r then "ok" else "BAD"}"
   for s in pyShadowed do
-    out.putStrLn s!"SHADOW\t{s.1}\t{s.2}"
-  out.putStrLn s!"COUNT\tclasses\t{pySizes.length}\t{floorClasses}"
-  out.putStrLn s!"COUNT\tpy_rows\t{pyRows.length}\t{floorPyRows}"
-  out.putStrLn s!"COUNT\tc_rows\t{cRows.length}\t{floorCRows}"
-  out.putStrLn s!"COUNT\tc_structs\t{cSizes.length}\t{floorCStructs}"
+    out.putStrLn s!"SHADOW\t{s.1.str}\t{s.2.str}\t{b2s (memPair s.1 s.2 knownShadowExceptions)}"
+  out.putStrLn s!"COUNT\tclasses\t{pyTab.length}\t{floorClasses}"
+  out.putStrLn s!"COUNT\tpy_rows\t{rowsOf pyTab}\t{floorPyRows}"
+  out.putStrLn s!"COUNT\tc_rows\t{rowsOf cTab}\t{floorCRows}"
+  out.putStrLn s!"COUNT\tc_structs\t{cTab.length}\t{floorCStructs}"
   out.putStrLn s!"COUNT\topt_rows\t{pyOptRows.length}\t{floorOptRows}"
   out.putStrLn s!"COUNT\tenum_rows\t{cEnumRows.length}\t{floorEnumRows}"
   out.putStrLn s!"COUNT\tfnopt_rows\t{pyFnOptRows.length}\t{floorFnOptRows}"
